@@ -341,6 +341,37 @@ theorem savepoint_interleaving_counterexample :
     (step (run (init 2 5 0) [.regO 0, .regO 1, .regS 2, .regS 3, .deployOk, .spA, .deregO 1, .regO 4, .tickB, .tickC, .deployOk]).1 .tick).2 = .retry :=
   ⟨⟨2, 5, 0, 3, _, rfl⟩, by decide, by decide, by decide, by decide⟩
 
+/-! ## members that stop answering RPCs (finding D71) -/
+
+/-- All theorems above are about `step`: the job when every RPC to a member returns. `stepQ` adds the one place where
+the code lets an unanswered RPC block the job's serial queue. While no member is unresponsive the two coincide. -/
+theorem stepQ_is_step (q : QSt) (a : Act) (h1 : q.stuck = false) (h2 : q.hungS = []) (h3 : q.hungO = [])
+    (h4 : q.retainStuck = false) :
+    (stepQ q a).1.s = (step q.s a).1 ∧ (stepQ q a).2 = (step q.s a).2 ∧ (stepQ q a).1.stuck = false ∧
+    (stepQ q a).1.retainStuck = false := by
+  cases a <;> simp [stepQ, h1, h2, h3, h4]
+  case publish n =>
+    generalize step q.s (.publish n) = r
+    obtain ⟨s', o⟩ := r
+    cases o <;> simp
+
+/-- An operator that stops answering `UpdateRetainedCheckpoints` does not stop the job: the call is made by the
+retained-ids goroutine, not by a task. Every membership task is processed exactly as by `step`. -/
+theorem unresponsive_operator_does_not_block_membership (q : QSt) (a : Act) (hm : a.membership = true)
+    (h1 : q.stuck = false) : (stepQ q a).1.s = (step q.s a).1 ∧ (stepQ q a).2 = (step q.s a).2 := by
+  cases a <;> simp_all [stepQ, Act.membership]
+
+/-- D71: source runner 1 stops answering right after its `Deploy` returned. `start()` posts `AssignSplits` as a task of
+the serial queue and that task waits for every runner, so the queue never comes back: the deregistration of runner 1
+and the heartbeat expiry are not processed, the job neither pauses nor redeploys, its state stays what it was. -/
+theorem unresponsive_runner_wedges_queue_counterexample :
+    (runQ (hang { s := (run (init 1 5 0) [.regO 0, .regS 1]).1 } false 1) [.deployOk, .deregS 1, .adv 6, .regO 0, .regS 2]).2 =
+      [.queueStuck, .queueStuck, .done, .queueStuck, .queueStuck] ∧
+    (runQ (hang { s := (run (init 1 5 0) [.regO 0, .regS 1]).1 } false 1) [.deployOk, .deregS 1, .adv 6, .regO 0, .regS 2]).1.s.status = .starting ∧
+    (runQ (hang { s := (run (init 1 5 0) [.regO 0, .regS 1]).1 } false 1) [.deployOk, .deregS 1, .adv 6, .regO 0, .regS 2]).1.s.asmSrs = [1] ∧
+    (runQ (hang { s := (run (init 1 5 0) [.regO 0, .regS 1]).1 } false 1) [.deployOk, .deregS 1, .adv 6, .regO 0, .regS 2]).1.s.srs = [1] := by
+  decide
+
 /-! ## the source runner side (finding D48) -/
 
 /-- D48: the runner's only free loop is inside a slow source read when checkpoint 1 is requested, so the request stays
